@@ -139,6 +139,11 @@ func verifyMatchRule(ruleData map[string]string,
 	}
 	// Iterate over queue and mark consumed artifacts
 	for srcPath := range srcArtifactQueue {
+		// Ignore artifacts that are not located under the source prefix
+		if ruleData["srcPrefix"] != "" && !strings.HasPrefix(srcPath, ruleData["srcPrefix"]) {
+			continue
+		}
+
 		// Remove optional source prefix from source artifact path
 		// Noop if prefix is empty, or artifact does not have it
 		srcBasePath := strings.TrimPrefix(srcPath, ruleData["srcPrefix"])
